@@ -158,6 +158,26 @@ def make_flaky(sp, inner, state):
     return Flaky(inner)
 
 
+def mid_at_of(r):
+    b = r.get("budget") or 0
+    return b - max(1, b // 5) if b > 50 else -1
+
+
+def _envelope_contracts(r, mid_at, gapfn, gap_final):
+    """Budget exhausted with a gap above tolerance: is the run still converging in the sense that
+    the largest gap seen over the last fifth of the budget is at most 70 % of the largest gap seen
+    over the fifth before it?  (The single mid-point comparison misjudges spiralling primal-dual
+    iterates, whose gap can sit in a trough at the mid-point and on a crest at the end.)"""
+    late = r.get("x_late") or []
+    if mid_at <= 0 or len(late) < 4:
+        return False
+    a = [gapfn(x_) for n_, x_ in late if n_ <= mid_at]
+    b = [gapfn(x_) for n_, x_ in late if n_ > mid_at] + [gap_final]
+    if not a or not all(np.isfinite(v) for v in a + b):
+        return False
+    return max(b) < 0.7 * max(a)
+
+
 class LLSWorld(World):
     name = "lls"
     property_id = "C14"
@@ -542,6 +562,7 @@ class LLSWorld(World):
             budget = BUDGET.get(eff)
             if budget is None:
                 budget = n + 5
+            out["budget"] = budget
             opts = dict(lamda=lam, solver=solver, max_iter=budget, show_pbar=k["show_pbar"],
                         accelerate=k["accelerate"], rho=k["rho"], max_cg_iter=30, max_power_iter=30)
             if k.get("save_obj"):
@@ -596,12 +617,18 @@ class LLSWorld(World):
             cnt = {"n": 0, "flagged": False}
 
             mid_at = budget - max(1, budget // 5) if budget > 50 else -1
+            late_every = budget // 25 if budget > 50 else 0
+            late_from = budget - 2 * (budget // 5)
 
             def counting_update():
                 orig_update()
                 cnt["n"] += 1
                 if cnt["n"] == mid_at:
                     out["x_mid"] = np.array(app.x, copy=True)
+                if late_every and cnt["n"] >= late_from and cnt["n"] % late_every == 0:
+                    # snapshots over the last two fifths of the budget (primal-dual iterates spiral:
+                    # their objective gap is not monotone, only its envelope is)
+                    out.setdefault("x_late", []).append((cnt["n"], np.array(app.x, copy=True)))
                 if judge_ledger and not cnt["flagged"] and (cnt["n"] <= 50 or cnt["n"] % 97 == 0):
                     badl = ledger.verify(outputs=[app.x])
                     if badl:
@@ -790,6 +817,9 @@ class LLSWorld(World):
                 # (an iterate just outside the box has a negative raw gap: compare like with like)
                 gem = _feasible_gap(r1["x_mid"])
                 still_converging = bool(np.isfinite(gem) and gem > 0 and gap_eff < 0.7 * gem)
+            if not still_converging and _envelope_contracts(r1, mid_at_of(r1), _feasible_gap if gk == "box" else (lambda v: F(v) - Fs), gap_eff):
+                still_converging = True
+                stats["probes.budget_exhausted_envelope_still_contracting"] += 1
             if still_converging:
                 stats["probes.budget_exhausted_still_converging"] += 1
                 res.note_max("unjudged_gap_over_tol." + str(eff), gap / tol)
@@ -822,6 +852,8 @@ class LLSWorld(World):
                 if gap2 > tol and r2.get("x_mid") is not None:
                     gm2 = F(r2["x_mid"]) - Fs
                     slow2 = bool(np.isfinite(gm2) and gm2 > 0 and gap2 < 0.7 * gm2)
+                    if not slow2:
+                        slow2 = _envelope_contracts(r2, mid_at_of(r2), lambda v: F(v) - Fs, gap2)
                 if gap2 > tol and not slow2 and not still_converging:
                     self._flag(res, "answer_depends_on_rng_history", site, 0, {"gap": gap2, "tol": tol})
         elif (plan["twin"] == "stream" and (sfaults or cspec["jumps"]) and not r1.get("resumed")
